@@ -622,6 +622,9 @@ def sites_of(cx, fn, kprefix=""):
             c = expr(cx, inner[0])
             out.append((kk, c))
             pre = calls_in(inner[0])
+            if pre and all(x.startswith("(SCall ") for x in pre):
+                # the calls the condition makes are recorded before the first test and again at the end of every pass
+                return pre + ["(SLoop %s true %s %s [])" % (coq_s(kk), c, lst(block(inner[-1]) + pre))]
             if pre:
                 return ["(SOther \"call in loop condition\")"] + block(inner[-1])
             return ["(SLoop %s true %s %s [])" % (coq_s(kk), c, lst(block(inner[-1])))]
@@ -705,6 +708,10 @@ def sites_of(cx, fn, kprefix=""):
                 promo = ty if pq[1] >= 32 else "s32"
                 return [sset(key("upd:" + t), t, "(CCast %s (CBin %s %s (CCast %s %s) (CLit %s 1)))" % (
                     ty, "OAdd" if n["opcode"] == "++" else "OSub", promo, promo, expr(cx, inner[0]), promo))]
+            if t and is_ptr(q) and cx.sizeof(q[:-1].strip()) is not None:
+                # p++ / p-- on a pointer: the address moves by the size of the pointee
+                return [sset(key("upd:" + t), t, "(CCast u64 (CBin %s s64 %s (CLit s64 %d)))" % (
+                    "OAdd" if n["opcode"] == "++" else "OSub", expr(cx, inner[0]), cx.sizeof(q[:-1].strip())))]
             return ["(SOther %s)" % coq_s("increment of " + (t or "?"))]
         if k == "CallExpr":
             return calls_in(n)
